@@ -90,7 +90,13 @@ def run_case(case):
     if kind == "same":
         q = history.expand(case)
         bm1, _, _ = history.build(cfg, torchsde, torch)
+        # the first object answers a few queries BEFORE its twin exists: building (and using) a second object with the same
+        # entropy and options must not change what the first one returns
+        q = [(cfg["t0"], cfg["t1"])] + q          # the whole interval first: its value is what everything else hangs on
+        pre = [bm1(a, b) for (a, b) in q[:3]]
         bm2, _, _ = history.build(cfg, torchsde, torch)
+        for (a, b) in q[:3]:
+            bm2(a, b)                  # the same sequence of queries for both objects (values may depend on the history)
         for idx, (a, b) in enumerate(q):
             r1, r2 = bm1(a, b), bm2(a, b)
             checks += 1
@@ -99,6 +105,12 @@ def run_case(case):
                     return Result(nontrivial=True, checks=checks, fail=Fail(
                         f"same_entropy_differs:{name}", f"two objects with equal entropy/options disagree on {name} of "
                                                         f"query #{idx} {(a, b)}", sig))
+            if idx < len(pre):
+                for name, x, y in zip("WUA", r1, pre[idx]):
+                    if not _eq(x, y):
+                        return Result(nontrivial=True, checks=checks, fail=Fail(
+                            f"same_entropy_differs:{name}", f"{name} of query #{idx} {(a, b)} changed after a second object "
+                                                            f"with the same entropy and options was built", sig))
         return Result(nontrivial=len(q) >= 10, labels=labels, checks=checks, metrics={"queries": len(q)})
     if kind == "dyadic":
         qa = history.expand({"cfg": cfg, "ops": case["ops_a"]})
@@ -180,8 +192,14 @@ def _xp_configs(seed, n):
     return out
 
 
-def _xp_digest(torchsde, case):
+def _xp_digest(torchsde, case, decoys=()):
     import hashlib
+    keep = []
+    for dc in decoys:       # objects that are only constructed (never queried) right before the object under test
+        try:
+            keep.append(history.build(dc, torchsde, torch))
+        except Exception:  # noqa
+            pass
     bm, _, _ = history.build(case["cfg"], torchsde, torch)
     h = hashlib.sha1()
     for (a, b) in history.expand(case):
@@ -228,7 +246,19 @@ def finalize(tier, seed, stats):
             polluted += 1
         except Exception:  # noqa  - a decoy is only there to disturb global state
             pass
-    here = {str(k): _xp_digest(torchsde, c) for k, c in enumerate(cases)}
+    here = {}
+    for k, c in enumerate(cases):
+        shp = c["cfg"]["shape"]
+        for other in ([1] + shp[1:], shp[:-1] if len(shp) > 1 and c["cfg"]["levy"] in ("none", "space-time") else shp + [1]):
+            if other != shp and not (c["cfg"]["levy"] in ("davie", "foster") and len(other) < 2):
+                try:      # same entropy, same options, another sample shape, built right before the object under test
+                    _xp_digest(torchsde, {"cfg": dict(c["cfg"], shape=other), "ops": c["ops"][:2]})
+                    polluted += 1
+                except Exception:  # noqa
+                    pass
+        decoys = [dict(c["cfg"], shape=o) for o in ([1] + shp[1:], shp + [1] if c["cfg"]["levy"] in ("none", "space-time")
+                                                       else shp) if o != shp]
+        here[str(k)] = _xp_digest(torchsde, c, decoys=decoys)
     fd, path = tempfile.mkstemp(suffix=".json", prefix="vp-c06-")
     try:
         with os.fdopen(fd, "w") as fh:
